@@ -1282,6 +1282,7 @@ int main(int argc, char **argv) {
         uint64_t fh = 1469598103934665603ULL; for (auto &st : work) { fh = (fh ^ st->pc.size()) * 1099511628211ULL; for (auto &c : st->pc) fh = (fh ^ Z3_get_ast_hash(Z, c.a)) * 1099511628211ULL; fh = (fh ^ st->steps) * 1099511628211ULL; }
         std::string frontier = "F\t" + std::to_string(work.size()) + "\t" + std::to_string(fh) + "\t" + std::to_string(ST.paths);
         if (sliceI != 0) { Stats fresh; ST = fresh; prunedStates = 0; }   // phase-1 results are reported once, by slice 0
+        if (timedOut) ST.errors.push_back("wall-clock budget exhausted during the breadth-first phase with " + std::to_string(work.size()) + "+ unexplored states");
         std::vector<std::unique_ptr<State>> items = std::move(work); work.clear();
         int fd = open(counterPath.c_str(), O_RDWR); auto *counter = (std::atomic<uint64_t> *)mmap(nullptr, 8, PROT_READ | PROT_WRITE, MAP_SHARED, fd, 0);
         if (fd < 0 || counter == MAP_FAILED) { std::cerr << "sqsym: cannot map counter\n"; _exit(2); }
